@@ -13,8 +13,8 @@ import (
 	gethstate "github.com/ethereum/go-ethereum/core/state"
 	ethtypes "github.com/ethereum/go-ethereum/core/types"
 	"github.com/ethereum/go-ethereum/core/vm/runtime"
-	gethparams "github.com/ethereum/go-ethereum/params"
 	"github.com/ethereum/go-ethereum/crypto"
+	gethparams "github.com/ethereum/go-ethereum/params"
 
 	e "haqqsim/engine"
 	"haqqsim/evmprog"
@@ -99,9 +99,9 @@ type c07Meta struct {
 	kind     string // eth | cosmos
 	sender   int
 	preState map[common.Address]map[common.Hash]common.Hash // storage of the contracts before the tx
-	msgs   []c07Msg
-	gas    uint64   // cosmos: declared gas
-	fee    *big.Int // cosmos: declared fee
+	msgs     []c07Msg
+	gas      uint64   // cosmos: declared gas
+	fee      *big.Int // cosmos: declared fee
 }
 
 func (c07) Setup(w *e.World) error {
